@@ -188,7 +188,8 @@ class LTLExplainer(LtlAstVisitor):
             op1_intervals, op2_intervals = explain_unsat_implies(op1_signal, op2_signal, intervals)
         self.explanations[element.name] = intervals
 
-        self.visit(element.children[0], [op1_intervals, flag])
+        # the antecedent contributes with the opposite polarity
+        self.visit(element.children[0], [op1_intervals, not flag])
         self.visit(element.children[1], [op2_intervals, flag])
 
     def visitIff(self, element, args):
